@@ -37,6 +37,24 @@ package obiformats
 //
 // Gzip cases run in child processes of this test binary (see c18child): the parallel gzip writer
 // leaks a goroutine and a 1 MiB buffer whenever its Close gives up on an error.
+//
+// Added by the audit (see c18variant, c18runFS):
+//
+//   - writer configurations the commands really use but that were never enumerated: WriteJSON /
+//     WriteCSV with OptionDontCloseFile (what Write{JSON,CSV}ToStdout pass: the sink is flushed by
+//     Wfile.Close but never closed), WriteCSV in auto-column mode (first batch peeked and pushed
+//     back by the constructor), the universal writer WriteSequence (format chosen on the first
+//     batch) -> writers json-nc csv-nc csv-auto seq-fa seq-fq;
+//   - fault kind persist+close: the sink stops accepting bytes at offset k AND its Close fails;
+//   - entry "file": the exported Write{Fasta,Fastq,JSON,CSV,Sequences}ToFile wrappers on REAL files
+//     (single, paired output through WritePairedReadsTo, append mode through OptionsAppendFile on a
+//     pre-filled file) and entry "dispatch": WriterDispatcher over a real Distribute (what
+//     obidistribute and the on-disk chunks of obiuniq do). The disk-full fault is produced by the
+//     kernel: RLIMIT_FSIZE = k makes every write(2) that would take a regular file beyond k bytes
+//     short / fail with EFBIG (SIGXFSZ ignored), exactly the persist@k shape, for EVERY k, on every
+//     file of the case at once (the pre-filled file of the append cases reaches the limit first).
+//     Oracle: a non-zero exit was recorded, or every file holds the bytes of the fault-free run.
+//     Keys: <entry>:<writer>[+paired][+append]:<plain|gzip>/<role of the short file>/silent-success.
 
 import (
 	"bufio"
@@ -47,10 +65,13 @@ import (
 	"io"
 	"os"
 	"os/exec"
+	"os/signal"
+	"path/filepath"
 	"runtime"
 	"sort"
 	"strings"
 	"sync"
+	"syscall"
 	"testing"
 	"time"
 
@@ -68,8 +89,12 @@ type c18case struct {
 	Data    string `json:"data"`    // S M L G (see c18dataset)
 	Split   []int  `json:"split"`   // number of records of each batch, in batch order
 	Arrival []int  `json:"arrival"` // arrival order of the batches at the writer
-	Fault   string `json:"fault"`   // none persist oneshot close
-	K       int    `json:"k"`       // byte offset of the fault in the sink's stream
+	Fault   string `json:"fault"`   // none persist oneshot close persist+close fsize
+	K       int    `json:"k"`       // byte offset of the fault in the sink's stream (fsize: RLIMIT_FSIZE)
+	Entry   string `json:"entry,omitempty"`  // "" failing sink | file (Write*ToFile) | dispatch (WriterDispatcher)
+	Paired  bool   `json:"paired,omitempty"` // file: WritePairedReadsTo(second file)
+	Append  string `json:"append,omitempty"` // file/dispatch: append mode, this file is pre-filled
+	Class   string `json:"class,omitempty"`  // dispatch: rot2 | count
 }
 
 func (c c18case) hist() string {
@@ -77,10 +102,30 @@ func (c c18case) hist() string {
 	if c.Gzip {
 		z = "gzip"
 	}
+	if c.Entry != "" {
+		return fmt.Sprintf("%s data=%s split=%v arrival=%v", c.target(), c.Data, c.Split, c.Arrival)
+	}
 	return fmt.Sprintf("%s:%s data=%s split=%v arrival=%v", c.Writer, z, c.Data, c.Split, c.Arrival)
 }
 
 func (c c18case) target() string {
+	if c.Entry != "" {
+		t := c.Entry
+		if c.Entry == "dispatch" {
+			t += "(" + c.Class + ")"
+		}
+		t += ":" + c.Writer
+		if c.Paired {
+			t += "+paired"
+		}
+		if c.Append != "" {
+			t += "+append(" + c.Append + ")"
+		}
+		if c.Gzip {
+			return t + ":gzip"
+		}
+		return t + ":plain"
+	}
 	if c.Writer == "chunk" {
 		return "chunkwriter"
 	}
@@ -168,7 +213,7 @@ func (s *c18sink) Write(p []byte) (int, error) {
 	idx := s.ops
 	s.ops++
 	switch s.fault {
-	case "persist":
+	case "persist", "persist+close":
 		if s.fired {
 			return 0, c18errNoSpace
 		}
@@ -200,6 +245,13 @@ func (s *c18sink) Close() error {
 	s.closeCalls++
 	if s.fault == "close" && s.closeCalls == 1 {
 		s.fired, s.firedPhase, s.closeFail = true, "close", true
+		return c18errClose
+	}
+	if s.fault == "persist+close" && s.closeCalls == 1 {
+		if !s.fired {
+			s.fired, s.firedPhase = true, "close"
+		}
+		s.closeFail = true
 		return c18errClose
 	}
 	return nil
@@ -268,8 +320,42 @@ func c18dataset(name string, qual bool) []*obiseq.BioSequence {
 	return out
 }
 
+// c18pairedset is c18dataset whose records carry a mate (other bases, same identifier); it is a
+// separate set of objects, so that the unpaired cases never see a paired record.
+func c18pairedset(name string, qual bool) []*obiseq.BioSequence {
+	key := fmt.Sprintf("%s/%v/paired", name, qual)
+	if d, ok := c18dataCache[key]; ok {
+		return d
+	}
+	delete(c18dataCache, fmt.Sprintf("%s/%v", name, qual))
+	fwd := c18dataset(name, qual)
+	delete(c18dataCache, fmt.Sprintf("%s/%v", name, qual)) // the unpaired cases get their own objects
+	for i, s := range fwd {
+		l := s.Len() + 3 + i
+		m := obiseq.NewBioSequence(s.Id(), c18dna(l, uint32(i+11)*uint32(len(name)+5)), "")
+		if qual {
+			q := make(obiseq.Quality, l)
+			for j := range q {
+				q[j] = uint8(15 + (j*5+i)%25)
+			}
+			m.SetQualities(q)
+		}
+		m.SetAttribute("count", i+2)
+		s.PairTo(m)
+	}
+	c18dataCache[key] = fwd
+	return fwd
+}
+
+func c18withQual(c c18case) bool {
+	return c.Writer == "fastq" || c.Writer == "seq-fq" // qualities only where the format carries them
+}
+
 func c18batches(c c18case) []obiiter.BioSequenceBatch {
-	data := c18dataset(c.Data, c.Writer == "fastq") // qualities only where the format carries them
+	data := c18dataset(c.Data, c18withQual(c))
+	if c.Paired {
+		data = c18pairedset(c.Data, c18withQual(c))
+	}
 	var out []obiiter.BioSequenceBatch
 	p := 0
 	for i, n := range c.Split {
@@ -302,12 +388,14 @@ type c18outcome struct {
 	CloseCalls int    `json:"cc"`
 	CloseFail  bool   `json:"cf"`
 	RSS        int64  `json:"rss,omitempty"` // child mode: resident set of the child
+	Files      map[string]c18fdig `json:"files,omitempty"` // real-file entries: content of every file
 }
 
 type c18ref struct {
-	n    int
-	h    uint64
-	ends []int
+	n     int
+	h     uint64
+	ends  []int
+	files map[string]c18fdig
 }
 
 func c18hash(b []byte) uint64 {
@@ -392,7 +480,42 @@ func c18wait(done chan struct{}, c c18case) (hung, gaveUp bool) {
 	}
 }
 
+// c18variant describes the writer configurations reachable through the failing sink.
+//
+//	fasta fastq json csv   WriteX(iterator, sink, 1 worker, OptionCloseFile)           (as before)
+//	json-nc csv-nc         the same with OptionDontCloseFile: what WriteJSONToStdout and
+//	                       WriteCSVToStdout pass (Wfile.Close flushes, the sink is never closed)
+//	csv-auto               WriteCSV with CSVAutoColumn(true): the constructor reads the first batch
+//	                       to find the columns and pushes it back
+//	seq-fa seq-fq          WriteSequence, the universal writer of Write SequencesTo{File,Stdout}:
+//	                       reads the first batch, pushes it back, hands over to WriteFasta/WriteFastq
+type c18variant struct {
+	base    string // fasta fastq json csv seq
+	noClose bool   // OptionDontCloseFile
+	auto    bool   // CSVAutoColumn
+	early   bool   // the constructor itself reads the iterator: the feeder must already run
+}
+
+func c18variantOf(w string) c18variant {
+	switch w {
+	case "fasta", "fastq", "json", "csv":
+		return c18variant{base: w}
+	case "json-nc":
+		return c18variant{base: "json", noClose: true}
+	case "csv-nc":
+		return c18variant{base: "csv", noClose: true}
+	case "csv-auto":
+		return c18variant{base: "csv", auto: true, early: true}
+	case "seq-fa", "seq-fq":
+		return c18variant{base: "seq", early: true}
+	}
+	panic("c18: unknown writer " + w)
+}
+
 func c18run(c c18case, record bool) c18outcome {
+	if c.Entry != "" {
+		return c18runFS(c)
+	}
 	sink := &c18sink{fault: c.Fault, k: c.K, record: record}
 	c18exit.reset()
 	done := make(chan struct{})
@@ -409,14 +532,29 @@ func c18run(c c18case, record bool) c18outcome {
 			obiiter.WaitForLastPipe()
 			return
 		}
+		v := c18variantOf(c.Writer)
 		batches := c18batches(c)
 		in := obiiter.MakeIBioSequence()
 		in.Add(1)
 		go in.WaitAndClose()
-		opts := []WithOption{OptionsParallelWorkers(1), OptionsCompressed(c.Gzip), OptionCloseFile()}
+		feed := func() {
+			for _, b := range c.Arrival {
+				in.Push(batches[b])
+			}
+			in.Done()
+		}
+		if v.early {
+			go feed() // the channel of the iterator is unbuffered: the arrival order is unchanged
+		}
+		opts := []WithOption{OptionsParallelWorkers(1), OptionsCompressed(c.Gzip)}
+		if v.noClose {
+			opts = append(opts, OptionDontCloseFile())
+		} else {
+			opts = append(opts, OptionCloseFile())
+		}
 		var out obiiter.IBioSequence
 		var err error
-		switch c.Writer {
+		switch v.base {
 		case "fasta":
 			out, err = WriteFasta(in, sink, opts...)
 		case "fastq":
@@ -424,19 +562,16 @@ func c18run(c c18case, record bool) c18outcome {
 		case "json":
 			out, err = WriteJSON(in, sink, opts...)
 		case "csv":
-			out, err = WriteCSV(in, sink, append(opts, CSVCount(true))...)
-		default:
-			panic("c18: unknown writer " + c.Writer)
+			out, err = WriteCSV(in, sink, append(opts, CSVCount(true), CSVAutoColumn(v.auto))...)
+		case "seq":
+			out, err = WriteSequence(in, sink, opts...)
 		}
 		if err != nil {
 			panic(fmt.Sprintf("c18: writer constructor failed: %v", err))
 		}
-		go func() {
-			for _, b := range c.Arrival {
-				in.Push(batches[b])
-			}
-			in.Done()
-		}()
+		if !v.early {
+			go feed()
+		}
 		out.Consume()             // what CLIWrite...(iterator, true) does (Recycle)
 		obiiter.WaitForLastPipe() // what every main does before returning (exit 0)
 	}()
@@ -451,6 +586,201 @@ func c18run(c c18case, record bool) c18outcome {
 	o.CloseCalls, o.CloseFail = sink.closeCalls, sink.closeFail
 	sink.mu.Unlock()
 	return o
+}
+
+// ---------------------------------------------------------------- real files, fault made by the kernel
+
+// c18prefill is the size of the content already present in the file named by c18case.Append.
+const c18prefill = 1500
+
+type c18fdig struct {
+	N int    `json:"n"`
+	H uint64 `json:"h"`
+}
+
+var c18rlimMax uint64
+var c18rlimOnce sync.Once
+
+func c18setFsize(k int) {
+	c18rlimOnce.Do(func() {
+		var old syscall.Rlimit
+		if err := syscall.Getrlimit(syscall.RLIMIT_FSIZE, &old); err != nil {
+			panic(err)
+		}
+		c18rlimMax = old.Max
+	})
+	lim := syscall.Rlimit{Cur: c18rlimMax, Max: c18rlimMax}
+	if k >= 0 {
+		lim.Cur = uint64(k)
+	}
+	if err := syscall.Setrlimit(syscall.RLIMIT_FSIZE, &lim); err != nil {
+		panic(fmt.Sprintf("c18: setrlimit(RLIMIT_FSIZE,%d): %v", k, err))
+	}
+}
+
+func c18scratch() string {
+	base := os.Getenv("C18_SCRATCH")
+	if base == "" {
+		if st, err := os.Stat("/dev/shm"); err == nil && st.IsDir() {
+			base = "/dev/shm"
+		} else {
+			base = os.TempDir()
+		}
+	}
+	d, err := os.MkdirTemp(base, "c18fs")
+	if err != nil {
+		panic(err)
+	}
+	return d
+}
+
+// c18runFS drives the exported file-name entry points on real files. With Fault == "fsize" every
+// regular file of the process is limited to K bytes while the writers run.
+func c18runFS(c c18case) c18outcome {
+	dir := c18scratch()
+	defer os.RemoveAll(dir)
+	ext := map[string]string{"fasta": "fasta", "fastq": "fastq", "json": "json", "csv": "csv", "seq-fa": "fastx", "seq-fq": "fastx"}[c.Writer]
+	fwd, rev := filepath.Join(dir, "out."+ext), filepath.Join(dir, "rev."+ext)
+	if c.Append != "" {
+		name := map[string]string{"fwd": fwd, "rev": rev}[c.Append]
+		if c.Entry == "dispatch" {
+			name = filepath.Join(dir, "chunk_"+c.Append+".fastx")
+			if c.Gzip {
+				name += ".gz"
+			}
+		}
+		if err := os.WriteFile(name, c18dna(c18prefill, 77), 0o600); err != nil {
+			panic(err)
+		}
+	}
+	c18exit.reset()
+	done := make(chan struct{})
+	if c.Fault == "fsize" {
+		c18setFsize(c.K)
+	}
+	go func() {
+		defer close(done)
+		batches := c18batches(c)
+		in := obiiter.MakeIBioSequence()
+		in.Add(1)
+		go in.WaitAndClose()
+		go func() {
+			for _, b := range c.Arrival {
+				in.Push(batches[b])
+			}
+			in.Done()
+		}()
+		opts := []WithOption{OptionsCompressed(c.Gzip)}
+		if c.Append != "" {
+			opts = append(opts, OptionsAppendFile(true))
+		}
+		var formater SequenceBatchWriterToFile
+		switch c.Writer {
+		case "fasta":
+			formater = WriteFastaToFile
+		case "fastq":
+			formater = WriteFastqToFile
+		case "json":
+			formater = WriteJSONToFile
+		case "csv":
+			formater = func(it obiiter.IBioSequence, fn string, o ...WithOption) (obiiter.IBioSequence, error) {
+				return WriteCSVToFile(it, fn, append(o, CSVCount(true))...)
+			}
+		case "seq-fa", "seq-fq":
+			formater = WriteSequencesToFile
+		default:
+			panic("c18: unknown writer " + c.Writer)
+		}
+		switch c.Entry {
+		case "file":
+			opts = append(opts, OptionsParallelWorkers(1))
+			if c.Paired {
+				opts = append(opts, WritePairedReadsTo(rev))
+			}
+			out, err := formater(in, fwd, opts...)
+			if err != nil {
+				panic(fmt.Sprintf("c18: %s: %v", c.hist(), err))
+			}
+			out.Recycle() // CLIWriteBioSequences(iterator, true)
+		case "dispatch":
+			var cls *obiseq.BioSequenceClassifier
+			switch c.Class {
+			case "rot2":
+				cls = obiseq.RotateClassifier(2) // records 1 and 3 -> chunk_1 (two batches), record 2 -> chunk_2
+			case "count":
+				cls = obiseq.AnnotationClassifier("count", "NA") // one file per record: chunk_2, chunk_3, chunk_4
+			default:
+				panic("c18: unknown classifier " + c.Class)
+			}
+			if c.Writer != "seq-fa" && c.Writer != "seq-fq" {
+				opts = append(opts, OptionsParallelWorkers(2)) // obidistribute; the on-disk chunks pass no option
+			}
+			WriterDispatcher(filepath.Join(dir, "chunk_%s.fastx"), in.Distribute(cls, 1), formater, opts...)
+		default:
+			panic("c18: unknown entry " + c.Entry)
+		}
+		obiiter.WaitForLastPipe()
+	}()
+	var o c18outcome
+	o.Hung, o.GaveUp = c18wait(done, c)
+	c18setFsize(-1)
+	o.Exited, o.Code, o.NExit = c18exit.get()
+	o.Files = map[string]c18fdig{}
+	ents, _ := os.ReadDir(dir)
+	for _, e := range ents {
+		b, err := os.ReadFile(filepath.Join(dir, e.Name()))
+		if err != nil {
+			panic(err)
+		}
+		o.Files[e.Name()] = c18fdig{len(b), c18hash(b)}
+		o.N += len(b)
+	}
+	return o
+}
+
+// c18judgeFS: oracle of the real-file entries. ref = files of the fault-free run of the same history.
+func c18judgeFS(c c18case, ref c18ref, o c18outcome) (fired bool, key, desc string) {
+	top := 0
+	for _, d := range ref.files {
+		if d.N > top {
+			top = d.N
+		}
+	}
+	fired = c.Fault == "fsize" && c.K < top
+	what := fmt.Sprintf("%s file size limit=%d (largest file of the fault-free run: %d bytes)", c.hist(), c.K, top)
+	if o.Hung {
+		return fired, c.target() + "/hang", what + ": the writer pipeline deadlocked"
+	}
+	if o.Exited && o.Code != 0 {
+		return fired, "", ""
+	}
+	var names []string
+	for n := range ref.files {
+		names = append(names, n)
+	}
+	sort.Strings(names)
+	var bad, roles []string
+	for _, n := range names {
+		if got := o.Files[n]; got != ref.files[n] {
+			bad = append(bad, fmt.Sprintf("%s holds %d of %d bytes", n, got.N, ref.files[n].N))
+			role := "chunk-file"
+			if c.Entry == "file" {
+				role = map[bool]string{true: "reverse-file", false: "forward-file"}[strings.HasPrefix(n, "rev.")]
+			}
+			if len(roles) == 0 || roles[len(roles)-1] != role {
+				roles = append(roles, role)
+			}
+		}
+	}
+	if len(bad) == 0 {
+		return fired, "", ""
+	}
+	st := "no exit was raised before WaitForLastPipe returned (exit status 0)"
+	if o.Exited {
+		st = "exit code 0 was raised"
+	}
+	return fired, fmt.Sprintf("%s/%s/silent-success", c.target(), strings.Join(roles, "+")),
+		fmt.Sprintf("%s: %s but %s", what, strings.Join(bad, ", "), st)
 }
 
 // c18drainPos tells whether the chunk written by the i-th sink Write of WriteSeqFileChunk (chunks
